@@ -51,12 +51,20 @@ class Both:
             return {"stage": "gcc", "msg": "; ".join(bad)[:300], "asm": [src[i - 1].strip() for i in lines[:4]]}
         return {"stage": "ok", "exe": base + ".exe", "wat": base + ".wat", "asm": base + ".s"}
 
-    def run_native(self, exe):
-        try:
-            p = subprocess.run([exe], capture_output=True, timeout=RUN_TIMEOUT)
-        except subprocess.TimeoutExpired as e:
-            return {"rc": "timeout", "out": (e.stdout or b"").decode("latin1"), "err": ""}
-        return {"rc": p.returncode, "out": p.stdout.decode("latin1"), "err": p.stderr.decode("latin1")[-300:]}
+    def run_native(self, exe, timeout=None):
+        """`timeout`: short limit for tiny modules that may hang when miscompiled (a wrong loop target); a hit is re-tried once with six
+        times the limit (loaded machine) before it counts.  A timeout is a RESULT (status `timeout`), never an infrastructure error."""
+        lim = timeout or RUN_TIMEOUT
+        for attempt in (0, 1):
+            try:
+                p = subprocess.run([exe], capture_output=True, timeout=lim)
+                return {"rc": p.returncode, "out": p.stdout.decode("latin1"), "err": p.stderr.decode("latin1")[-300:]}
+            except subprocess.TimeoutExpired as e:
+                last = {"rc": "timeout", "out": (e.stdout or b"").decode("latin1"), "err": ""}
+                if timeout is None:
+                    break
+                lim = lim * 6
+        return last
 
     def run_wazero(self, watfile):
         try:
@@ -67,11 +75,11 @@ class Both:
         st = next((l[7:] for l in reversed(err) if l.startswith("STATUS ")), "error:no-status rc=%d %s" % (p.returncode, " ".join(err)[-200:]))
         return {"st": st, "out": p.stdout.decode("latin1")}
 
-    def both(self, name, wat):
+    def both(self, name, wat, timeout=None):
         b = self.build(name, wat)
         if b["stage"] != "ok":
             return b, None, None
-        return b, self.run_native(b["exe"]), self.run_wazero(b["wat"])
+        return b, self.run_native(b["exe"], timeout), self.run_wazero(b["wat"])
 
 
 def native_status(rc):
@@ -210,9 +218,10 @@ def run_trap_case(ctx, B, name, key, wat, what):
     return []
 
 
-def run_scenario(ctx, B, name, wat, keyfn=None):
-    """whole-output comparison of one scenario module; the first differing line names the construct"""
-    b, nat, wz = B.both(name, wat)
+def run_scenario(ctx, B, name, wat, keyfn=None, timeout=None, expect=None):
+    """whole-output comparison of one scenario module; the first differing line names the construct.
+    `expect`: independently computed output lines (None = no expectation for that line): the reference itself is checked against them."""
+    b, nat, wz = B.both(name, wat, timeout)
     if b["stage"] != "ok":
         return 0, [("build:%s:%s-rejects" % (name, b["stage"]), "scenario %s cannot be built natively: %s %s" % (name, b["msg"], b.get("asm", "")),
                     {"scenario": name, "message": b["msg"], "asm": b.get("asm")})]
@@ -221,6 +230,11 @@ def run_scenario(ctx, B, name, wat, keyfn=None):
     nl, wl = nat["out"].splitlines(), wz["out"].splitlines()
     src = scenario_index(wat)
     found = []
+    if expect is not None:
+        bad = [(i, e, wl[i] if i < len(wl) else None) for i, e in enumerate(expect) if e is not None and (i >= len(wl) or wl[i] != e)]
+        if bad:
+            ctx.proof["broken"].append({"theorem": "scenario %s: independent evaluation vs reference runtime" % name,
+                                        "why": "line %d: python evaluation %s, Wat2Wasm+wazero %s (%s)" % (bad[0][0], bad[0][1], bad[0][2], src[bad[0][0]][:100] if bad[0][0] < len(src) else "?")})
     for i in range(max(len(nl), len(wl))):
         a = nl[i] if i < len(nl) else "<missing: %s>" % native_status(nat["rc"])
         c = wl[i] if i < len(wl) else "<missing: %s>" % wz["st"]
@@ -391,7 +405,8 @@ def run(ctx):
             f = run_trap_case(ctx, B, "trapk_" + job[1].replace("-", "_"), job[1], M.trap_module(job[1]), "module that runs into `%s`" % job[1])
             return job, 1, f
         if job[0] == "scenario":
-            n, f = run_scenario(ctx, B, job[1], job[2])
+            opt = job[3] if len(job) > 3 else {}
+            n, f = run_scenario(ctx, B, job[1], job[2], keyfn=opt.get("keyfn"), timeout=opt.get("timeout"), expect=opt.get("expect"))
             return job, n, f
         raise KeyError(job[0])
 
@@ -416,6 +431,13 @@ def run(ctx):
         jobs.append(("scenario", "exit%d" % code, M.exit_module(code)))
     for name, wat in M.extra_scenarios(rng, quick):
         jobs.append(("scenario", name, wat))
+    # label scoping: shadowed / reused label names (fixed cases + generated trees with an independent evaluation); a wrong loop target can hang
+    for r in range(1 if quick else 12):
+        wat, expect, nshadow = M.label_module(rng, 40 if quick else 80, 18)
+        dist["label_shadowed_branches"] = dist.get("label_shadowed_branches", 0) + nshadow
+        jobs.append(("scenario", "labels" + ("" if r == 0 else str(r)), wat, {"timeout": 20, "expect": expect, "keyfn": lambda line: "shadowed-label-branch"}))
+    jobs.append(("scenario", "label_hang", M.label_hang_module(), {"timeout": 10, "keyfn": lambda line: "shadowed-label-branch"}))
+    jobs.append(("scenario", "br_table_repeated_target", M.br_table_repeated_module(), {"timeout": 20}))
 
     def do_safe(job):
         """a failing step of one module is a result for that module, never an uncaught exception"""
